@@ -27,13 +27,6 @@ let cc inp impl =
 
 (* server session:  end chunks script   ->   events
    (the scripted handler is the extracted Model/ScriptHandler.v) *)
-let beh_of_tok t = match t with
-  | "ok" -> ShOk | "short" -> ShShort | "long" -> ShLong | "nil" -> ShNil
-  | "eproto" -> ShProto | "eother" -> ShOther
-  | s when String.length s > 1 && s.[0] = 'e' ->
-    ShErr (n_of_int (int_of_string (String.sub s 1 (String.length s - 1))))
-  | _ -> ShOk
-
 let srv inp impl =
   match inp with
   | [send; chunks; script] ->
